@@ -551,6 +551,9 @@ func c03() []*Ob {
 					}
 				}
 			}},
+		{Prop: "C03", ID: "C03.8", Engine: "DOM(evidence)", Floor: 1,
+			Desc:  "the sealed id table answers position queries like the active one: sealedIDsIndex.LessOrEqual takes a block-table shortcut to true only from the full (MID, RID) comparison with the previous block's minimum, or after looking at the position's own MID (shared rule with C14.6 / C04.8 — an id present in the active fraction must be found in its sealed form)",
+			Check: func(c *Ctx) { lessOrEqualEvidence(c) }},
 		{Prop: "C03", ID: "C03.6", Engine: "OWN(who-may-read)", Floor: 2,
 			Desc: "the raw MinTIDs column of lids.Table is not comparable with a TID for continued blocks (MinTID is lastMaxTID+1 there); its elements and the IsContinued flags may be read only by GetAdjustedMinTID, through which every lookup (first/last block for a TID, chunk index, next-block test) must go",
 			Check: func(c *Ctx) {
